@@ -37,6 +37,8 @@ pub enum TokKind {
     Delta { max: u128 },
     /// free text (comments); not a corruption target
     Text,
+    /// the text of an AIGER comment section (everything after `c\n` up to the end of the file)
+    AigComment,
 }
 
 #[derive(Clone, Debug)]
